@@ -1526,7 +1526,18 @@ func (node *IntervalExpr) walkSubtree(visit Visit) error {
 
 // Format formats the node.
 func (node *CollateExpr) Format(buf *TrackedBuffer) {
-	buf.Myprintf("%v collate %s", node.Expr, node.Charset)
+	buf.Myprintf("%v collate ", node.Expr)
+	_, isKeyword := keywords[strings.ToLower(node.Charset)]
+	needQuotes := !isPlainIdentifier(node.Charset) || isKeyword
+	if _, pg := defaultDialect.(*postgresql.PostgreSQLDialect); pg && node.Charset != strings.ToLower(node.Charset) {
+		// PostgreSQL folds unquoted names to lower case: "C", "en_US" have to stay quoted
+		needQuotes = true
+	}
+	if needQuotes {
+		writeQuotedIdentifier(buf, defaultDialect.QuoteHandler().GetIdentifierQuote(), node.Charset)
+	} else {
+		buf.Myprintf("%s", node.Charset)
+	}
 }
 
 func (node *CollateExpr) walkSubtree(visit Visit) error {
@@ -1550,8 +1561,16 @@ func (node *FuncExpr) Format(buf *TrackedBuffer) {
 	}
 	// Function names should not be back-quoted even
 	// if they match a reserved word. So, print the
-	// name as is.
-	buf.Myprintf("%s(%s%v)", node.Name.String(), distinct, node.Exprs)
+	// name as is - unless it was written in quotes that it needs (or that keep its case).
+	switch {
+	case node.Name.quote != 0:
+		writeQuotedIdentifier(buf, node.Name.quote, node.Name.val)
+	case !isPlainIdentifier(node.Name.val):
+		formatID(buf, node.Name.val, node.Name.Lowered())
+	default:
+		buf.Myprintf("%s", node.Name.String())
+	}
+	buf.Myprintf("(%s%v)", distinct, node.Exprs)
 }
 
 func (node *FuncExpr) walkSubtree(visit Visit) error {
@@ -1961,6 +1980,20 @@ func (node ColIdent) Format(buf *TrackedBuffer) {
 
 func (node ColIdent) walkSubtree(visit Visit) error {
 	return nil
+}
+
+// isPlainIdentifier: the name can be written without quotes (letters, digits, underscore; no leading digit)
+func isPlainIdentifier(name string) bool {
+	if name == "" {
+		return false
+	}
+	for i := 0; i < len(name); i++ {
+		c := uint16(name[i])
+		if !isLetter(c) && (i == 0 || !isDigit(c)) {
+			return false
+		}
+	}
+	return true
 }
 
 // FormatForDialect formats the node for specified dialect
